@@ -251,11 +251,44 @@ fn strip_spans(s: &str) -> String {
     out
 }
 
+/// `Comment { span: Span, value: "// raw\n" }` -> `Comment`, same for DocString: the raw spelling of a comment line
+/// inside an AST node quoted by a diagnostic is layout, not content (the content is compared through the AST)
+fn strip_raw_lines(s: &str) -> String {
+    let mut out = String::with_capacity(s.len());
+    let mut rest = s;
+    loop {
+        let next = ["Comment { span: Span, value: \"", "DocString { span: Span, value: \""]
+            .iter()
+            .filter_map(|pat| rest.find(pat).map(|i| (i, *pat)))
+            .min();
+        let Some((i, pat)) = next else { break };
+        out.push_str(&rest[..i]);
+        out.push_str(pat.split(' ').next().unwrap_or(""));
+        let mut after = rest[i + pat.len()..].char_indices();
+        let mut end = rest.len();
+        while let Some((j, c)) = after.next() {
+            if c == '\\' {
+                after.next();
+            } else if c == '"' {
+                end = i + pat.len() + j + 1;
+                break;
+            }
+        }
+        rest = rest[end..].strip_prefix(" }").unwrap_or(&rest[end..]);
+    }
+    out.push_str(rest);
+    out
+}
+
+fn norm_diag(s: &str) -> String {
+    strip_raw_lines(&strip_spans(s))
+}
+
 fn diagnostics(p: &Parser) -> Vec<String> {
     let mut d: Vec<String> = Vec::new();
-    d.extend(p.errors().iter().map(|e| format!("E {}", strip_spans(&format!("{e:?}")))));
-    d.extend(p.warnings().iter().map(|w| format!("W {}", strip_spans(&format!("{w:?}")))));
-    d.extend(p.other_warnings().iter().map(|w| format!("O {}", strip_spans(&format!("{w:?}")))));
+    d.extend(p.errors().iter().map(|e| format!("E {}", norm_diag(&format!("{e:?}")))));
+    d.extend(p.warnings().iter().map(|w| format!("W {}", norm_diag(&format!("{w:?}")))));
+    d.extend(p.other_warnings().iter().map(|w| format!("O {}", norm_diag(&format!("{w:?}")))));
     d.sort();
     d
 }
